@@ -189,12 +189,20 @@ P('C13', claimed=True, level='other', contracts=['seq_valuepatterns'], drivers=[
               'contracts of their own.'),
   level_note='Bounded: first 64 items; corners the documentation leaves open are left unspecified and listed in notes.')
 
-P('C14', claimed=True, level='exploration', drivers=['vf.drivers.C14'],
-  level_text=('Key resolution is compared with the documented chains for all key subsets x 3 values x 3 '
-              'scales; played events and event stream players are checked on the NRT score (one /s_new at '
-              'logical time + latency with fresh id and the defined controls, gate-off at + sustain iff '
-              'gated, rests send nothing, timelines of Pbind/Pmono/Ppar/Pchain/Pdur compositions).'),
-  level_note='Event code is dynamic dictionary dispatch: bounded only. Modifier-only events are left unspecified.')
+P('C14', claimed=True, level='other', contracts=['seq_event_keys'], drivers=['vf.drivers.C14'],
+  level_text=('The key chains are under contract (pyvc, all numeric values, any scale/tuning as uninterpreted '
+              'degree_to_key / spo / octave_ratio): EventDict.__call__ (given value, else key function called '
+              'with the event, else default) and every chain function of PitchKeys, DurationKeys and '
+              'AmplitudeKeys equals the documented chain written as a spec function, with the documented '
+              'precedence between source keys. Bounded: key resolution compared with the documented chains '
+              'for all key subsets x 3 values x 3 scales on the real Scale/Tuning classes; played events and '
+              'event stream players checked on the NRT score (one /s_new at logical time + latency with fresh '
+              'id and the defined controls, gate-off at + sustain iff gated, rests send nothing, timelines of '
+              'Pbind/Pmono/Ppar/Pchain/Pdur compositions).'),
+  level_note=('Assumed: midicps/cpsmidi/log2/dbamp/ampdb as uninterpreted functions (C15 covers them), floats '
+              'as reals, the event abstracted to has/own/resolved values per key with the lookup contract as '
+              'axiom. Event play, message parameter selection and the stream player are dynamic dictionary '
+              'dispatch: bounded only. Modifier-only events are left unspecified.'))
 
 P('C15', claimed=True, level='other',
   contracts=['base_builtins', 'base_builtins_wrappers', 'synth_specialindex'], drivers=['vf.drivers.C15'],
